@@ -12,10 +12,11 @@ BE = 'biogeme.expressions.base_expressions'
 
 # methods of MultipleExpression that are its own interface (not overrides of a tree operation)
 OWN_INTERFACE = {'__init__', 'selected', 'get_iterator', 'catalog_size', 'selected_name', 'selected_expression', '__str__'}
-# tree walks of Expression that deliberately see ALL members of a catalog (catalog management), or do not
-# take part in evaluating / preparing the selected formula
-WALKS_ALL_MEMBERS = {'dict_of_catalogs', 'set_central_controller', 'get_all_controllers', 'reset_expression_selection',
-                     'set_of_multiple_expressions'}
+# tree walks of Expression that deliberately see ALL members of a catalog (catalog management: they must reach the
+# controllers / catalogs of unselected members too) ...
+WALKS_ALL_MEMBERS = {'dict_of_catalogs', 'set_central_controller', 'get_all_controllers', 'reset_expression_selection'}
+# ... or bookkeeping that takes no part in evaluating / preparing the selected formula
+BOOKKEEPING = {'set_of_multiple_expressions'}
 # owned by another property: C12 / F-10 (the selected member's own audit rules are skipped)
 OWNED_ELSEWHERE = {'audit': 'C12 (F-10): MultipleExpression inherits Expression.audit, which audits only the children of '
                             'the selected member, never the member itself'}
@@ -145,7 +146,7 @@ def coverage(repo) -> list[tuple]:
     """Every recursive tree operation of Expression (a method that calls its own name on members of
     self.children / self.get_children()) is overridden by MultipleExpression -- otherwise the walk would use the
     node's own children instead of the selected member -- unless it is a catalog-management walk over all members
-    (fixed list WALKS_ALL_MEMBERS) or is owned by another property (OWNED_ELSEWHERE, reported in the detail)."""
+    (fixed lists WALKS_ALL_MEMBERS, BOOKKEEPING) or is owned by another property (OWNED_ELSEWHERE, reported in the detail)."""
     base = repo.modules[BE].classes['Expression'].node
     cls = repo.modules[ME].classes['MultipleExpression'].node
     over = {n.name for n in cls.body if isinstance(n, ast.FunctionDef)}
@@ -161,6 +162,8 @@ def coverage(repo) -> list[tuple]:
         elif fn.name in WALKS_ALL_MEMBERS:
             where = 'overridden by Catalog' if fn.name in over_cat else 'inherited'
             out.append((name, True, f'catalog-management walk over all members ({where})', {'line': fn.lineno}))
+        elif fn.name in BOOKKEEPING:
+            out.append((name, True, 'bookkeeping walk, not part of evaluating the selected formula (inherited)', {'line': fn.lineno}))
         elif fn.name in OWNED_ELSEWHERE:
             out.append((name, True, 'NOT overridden -- left to ' + OWNED_ELSEWHERE[fn.name], {'line': fn.lineno}))
         else:
